@@ -11,8 +11,9 @@ PAST=1000000000
 
 class Determinism(PipelineBase):
     name='C13.determinism'
-    def __init__(self,nlinks=2,two_steps=False,all_valid=False,nsig=1,**kw):
-        PipelineBase.__init__(self,**kw); self.nlinks=nlinks; self.two_steps=two_steps; self.all_valid=all_valid; self.nsig=nsig
+    def __init__(self,nlinks=2,two_steps=False,all_valid=False,nsig=1,alias=False,**kw):
+        PipelineBase.__init__(self,**kw); self.nlinks=nlinks; self.two_steps=two_steps; self.all_valid=all_valid; self.nsig=nsig; self.alias=alias
+        if alias: self.name='C13.determinism_one_key_under_two_ids'
         if all_valid: self.name='C13.determinism_%dlinks_all_valid'%nlinks
         if nsig>1: self.name='C13.determinism_%dlinks_%dsignatures_per_link'%(nlinks,nsig)
         self.bounds={'steps':2 if two_steps else 1,'links_per_step':nlinks,'threshold':'any u32','materials/products':'one path each, free digest byte per link (links may differ); in the all-valid variant every link but the first may report one more product of its own',
@@ -55,7 +56,8 @@ class Determinism(PipelineBase):
                     sds.append(SigD(i,mbj,z3.Bool('in_%d_%d_%d'%(si,i,j)),z3.Bool('ov_%d_%d_%d'%(si,i,j))))
                 dirs[()].append(FileD(sname,i,BlockD('link',LinkD(sname,mats,prods),sds)))
             steps.append(StepD(sname,thr,list(range(n))))
-        lay=LayoutD(list(range(n)),steps)
+        # alias: key 1 of the table has its own identifier but the MATERIAL of key 0 (one functionary known under two ids)
+        lay=LayoutD(list(range(n)),steps,same_material=({1:0} if self.alias else None))
         lb=BlockD('layout',lay,[SigD(OWN,OWN)]); caller=[(OWN,OWN)]
         return lb,caller,dirs
     def mk_args(self,run):
